@@ -26,7 +26,7 @@ func checkC12(c *Ctx, r *Report) {
 	mk := c.Func("", "makeOptions")
 	cfgT := c.Named("", "Config")
 
-	r.Rule("R12a", "every exported *Config method with (name string, idx int, ...) passes its own name and idx and options made from its own option arguments to parsePathIdx (directly or via an unexported helper) and accesses its own receiver through the resulting path", 14)
+	r.Rule("R12a", "every exported *Config method with (name string, idx int, ...) passes its own name and idx and options made from its own option arguments to parsePathIdx (directly or via an unexported helper) and accesses its own receiver through the resulting path; no successful return avoids that", 28)
 	var methods []*ssa.Function
 	ms := c.Prog.MethodSets.MethodSet(types.NewPointer(cfgT))
 	for i := 0; i < ms.Len(); i++ {
@@ -42,6 +42,30 @@ func checkC12(c *Ctx, r *Report) {
 	for _, fn := range methods {
 		ok, why := addressFlow(c, fn, fn.Params[0], fn.Params[1], fn.Params[2], ppi, mk, 0)
 		r.Check(ok, "R12a", c.FnName(fn), "address function", c.Pos(fn.Pos()), why, "this entry point does not address its setting through parsePathIdx(own name, own idx, own options) on its own receiver: "+why)
+		// ... and on every way to a successful answer: a shortcut that answers from the node's own dictionary
+		// (HasField(name) for a name without separator) classifies "0" as a name where every other entry point
+		// takes it for a list index, and the spellings of one address stop agreeing
+		reachesPPI := func(g *ssa.Function) bool {
+			return g == ppi || c.Reach([]*ssa.Function{g}, nil, nil)[ppi]
+		}
+		isM := func(in ssa.Instruction) bool {
+			ci, isCall := in.(ssa.CallInstruction)
+			if !isCall {
+				return false
+			}
+			g := ci.Common().StaticCallee()
+			return g != nil && g.Pkg == c.SSA[""] && reachesPPI(g)
+		}
+		isSuccess := func(ret *ssa.Return) bool {
+			n := len(ret.Results)
+			return n > 0 && typeStr(ret.Results[n-1].Type()) == "error" && IsNilConst(ret.Results[n-1])
+		}
+		badRets := MustPass(fn, isM, isSuccess)
+		pos := fn.Pos()
+		if len(badRets) > 0 {
+			pos = badRets[0].Pos()
+		}
+		r.Check(len(badRets) == 0, "R12a", c.FnName(fn), "no answer around the address function", c.Pos(pos), "every successful return lies behind the address function", "this entry point can answer successfully without addressing its setting through parsePathIdx: the shortcut classifies the name on its own (a bare number is a list index for every other entry point), so two spellings of one address — Has(\"1\", -1) and Has(\"\", 1) — disagree")
 	}
 
 	// R12b
